@@ -56,6 +56,9 @@ static SF_PRIVATE W ;
 void h_open_write (void)
 {	int subformat, endian_bits, rate ;
 	__CPROVER_assume ((subformat & ~SF_FORMAT_SUBMASK) == 0 && (endian_bits & ~SF_FORMAT_ENDMASK) == 0) ;
+#ifdef SUBFORMAT_FIXED
+	subformat = SUBFORMAT_FIXED ; endian_bits = 0 ;
+#endif
 	__CPROVER_assume (rate >= 1 && rate <= (1 << 19)) ;	/* larger rates overflow the informational bytes-per-second product in some writers: outside this lemma */
 	W.virtual_io = SF_TRUE ; W.file.mode = SFM_WRITE ;
 	W.vio.get_filelen = v_get_filelen ; W.vio.seek = v_seek ; W.vio.read = v_read ; W.vio.write = v_write ; W.vio.tell = v_tell ;
@@ -67,6 +70,29 @@ void h_open_write (void)
 	__CPROVER_assert (err != 0 || g_init_calls == 1, "a successful open for write has run exactly one codec initialiser") ; /*@C10.accepted_format_gets_a_codec*/
 #ifndef NO_HEADER
 	__CPROVER_assert (err != 0 || (W.write_header != NULL), "write_header installed") ; /*@C10.open_installs_write_header*/
+#endif
+#ifdef WAV_UPDATE_CHECK
+	/* C11: a header update after L bytes of audio were stored (SFC_UPDATE_HEADER_NOW, auto update, close).  For the
+	** block encodings (bytewidth == 0: IMA/MS ADPCM, GSM, G721, NMS...) the length of the data chunk must come from the
+	** bytes in the file; the RIFF length covers the file for every encoding. */
+	if (err == 0 && W.write_header != NULL)
+	{	sf_count_t L, F ;
+		__CPROVER_assume (0 <= L && L <= (1LL << 30) && 0 <= F && F <= (1LL << 30)) ;
+		sf_count_t D = W.dataoffset ;
+		__CPROVER_assume (D >= 12 && D == vlen) ;	/* reachability of this is witnessed below */
+		vlen = D + L ; vpos = vlen ; W.sf.frames = F ; W.have_written = SF_TRUE ;
+		int uerr = W.write_header (&W, SF_TRUE) ;
+		if (uerr == 0 && W.dataoffset == D && W.bytewidth == 0)
+		{	unsigned dsz = (unsigned) store [D - 4] | ((unsigned) store [D - 3] << 8) | ((unsigned) store [D - 2] << 16) | ((unsigned) store [D - 1] << 24) ;
+			__CPROVER_assert (dsz == (unsigned) L, "block encodings: the data chunk length written by a header update covers the audio bytes stored so far") ; /*@C11.data_length_covers_audio_stored_so_far*/
+			} ;
+		if (uerr == 0)
+		{	unsigned rsz = (unsigned) store [4] | ((unsigned) store [5] << 8) | ((unsigned) store [6] << 16) | ((unsigned) store [7] << 24) ;
+			__CPROVER_assert (rsz == (unsigned) (vlen - 8), "the RIFF length written by a header update covers the file") ; /*@C11.riff_length_covers_the_file*/
+			__CPROVER_assert (vlen == D + L && vpos == D + L, "a header update neither grows the file nor moves the write position") ; /*@C11.header_update_restores_position*/
+			} ;
+		REACH (uerr == 0 && W.bytewidth == 0 && W.dataoffset == D, "header update with a block encoding") ;
+		} ;
 #endif
 	REACH (err == 0, "some admitted format opens") ;
 	CANARY () ;
